@@ -43,7 +43,10 @@ def check_case(ws, interps, ir, out, op=OP, extra=None):
         if res["obs"]:
             viols.append({"desc": "%s on %s: %r" % (res["obs"][0]["kind"], interp, res["obs"][0]), "interp": interp,
                           "obs": res["obs"][:5]})
-    out.note_case(ir, chainstrat.nontrivial(ir), classes=sorted(chainstrat.classes(ir)), n_eval=len(interps))
+    if "special" in ir:
+        out.note_case(ir, True, classes=["special." + ir["special"]], n_eval=len(interps))
+    else:
+        out.note_case(ir, chainstrat.nontrivial(ir), classes=sorted(chainstrat.classes(ir)), n_eval=len(interps))
     return viols
 
 
@@ -57,6 +60,9 @@ def deep_chains():
             out.append({"outer": "coro", "outer_ml": False, "links": [[kind, False]] * d, "end": "trap", "nsusp": 1})
     mixed = [["asend", False], ["await_obj_wrapper", True], ["yield_from_gen", False], ["await_coro", False]] * 12
     out.append({"outer": "agen", "outer_ml": True, "links": mixed, "end": "fut", "nsusp": 1})
+    # a fixed scenario outside the chain grammar: await anext(it, default) where it.__anext__() hands out an awaitable that
+    # is also a sequence (a tuple subclass holding an unrelated suspended coroutine): nothing of that tuple is part of the chain
+    out.append({"special": "anext_sequence_awaitable"})
     return out
 
 
